@@ -13,8 +13,9 @@ DIMS = basis.DIMS
 FACTORIES = {
     # name -> (index range for dimension d, documented set of diagonal positions carrying a 1)
     'Projector': (lambda d: range(0, d), lambda d, i: {i}),
-    'PosProjector': (lambda d: range(1, d), lambda d, k: set(range(0, k))),
-    'NegProjector': (lambda d: range(1, d), lambda d, k: set(range(d - k, d))),
+    # every index the factory admits (0 <= k < d), including the edge k = 0 (no ones at all)
+    'PosProjector': (lambda d: range(0, d), lambda d, k: set(range(0, k))),
+    'NegProjector': (lambda d: range(0, d), lambda d, k: set(range(d - k, d))),
 }
 
 
@@ -97,7 +98,7 @@ def run(db, rep, tier):
             rep.ok('A.fact.set')
         else:
             rep.fail('A.fact.set', 'Identity/%d' % d, unit.loc(f), 'unit matrix', diag_str(res[0], d) if res else 'wrong shape', f['name'])
-    rep.floor('A.fact.set', n, 20 + 2 * 15 + 5)
+    rep.floor('A.fact.set', n, 20 + 2 * 20 + 5)
     m = 0
     for d in DIMS:
         for k in range(d * d):
